@@ -316,9 +316,10 @@ type session struct {
 	eps      []*endpoint
 	host     *endpoint
 	honest   *endpoint
-	aborted  bool // liveness wait expired
-	validSet map[uint64]bool // heights of unmodified momentums of A handed to the node
-	txValid  bool // a (possibly) valid account block was delivered
+	aborted  bool                // liveness wait expired
+	validSet map[uint64]bool     // heights of unmodified momentums of A handed to the node
+	poolOK   map[types.Hash]bool // valid account blocks of A handed to the node (alone or inside a momentum)
+	txValid  bool                // a (possibly) valid account block was delivered
 	msgNo    int
 	policy   string
 	polFault string
@@ -444,18 +445,19 @@ func dumpAll() string {
 // ---- hostile message generator ----------------------------------------------------------------------
 
 type hmsg struct {
-	code    uint64
-	payload []byte
-	stream  io.Reader // lazily generated payload (size = declared)
-	size    uint32
-	descr   string
-	shape   string
-	reaches bool     // decodes far enough to reach a chain lookup / insert (by construction)
-	over    bool     // declared size > 10 MiB
-	valid   []uint64 // heights of unmodified A momentums carried
-	tx      bool     // carries account blocks that may be valid
-	fromN   uint64
-	fromM   uint64
+	code     uint64
+	payload  []byte
+	stream   io.Reader // lazily generated payload (size = declared)
+	size     uint32
+	descr    string
+	shape    string
+	reaches  bool     // decodes far enough to reach a chain lookup / insert (by construction)
+	over     bool     // declared size > 10 MiB
+	valid    []uint64 // heights of unmodified A momentums carried
+	tx       bool     // carries re-signed account blocks that may be valid
+	blocksOf []uint64 // heights of A's momentums whose (valid) account blocks are carried
+	fromN    uint64
+	fromM    uint64
 }
 
 var amounts = []uint64{0, 1, 2, 3, 127, 128, 129, 511, 512, 513, 1000, 1 << 32, 1 << 63, ^uint64(0) - 1, ^uint64(0)}
@@ -702,6 +704,14 @@ func (s *session) noteValid(m *hmsg, h uint64) {
 	}
 }
 
+// noteBlocks: the account blocks of A's momentum h travel with the message (also inside a
+// momentum that is itself faulty): they are valid blocks the node may keep in its pool.
+func (s *session) noteBlocks(m *hmsg, h uint64) {
+	if h > s.k && h <= earlyTop {
+		m.blocksOf = append(m.blocksOf, h)
+	}
+}
+
 func (s *session) genValid(label string, kind string) *hmsg {
 	c := s.c
 	m := &hmsg{}
@@ -772,6 +782,7 @@ func (s *session) genValid(label string, kind string) *hmsg {
 				if next <= s.tip {
 					list = append(list, s.momentumAt(next))
 					s.noteValid(m, next)
+					s.noteBlocks(m, next)
 					ds = append(ds, fmt.Sprintf("valid A[%d]", next))
 					next++
 					break
@@ -781,6 +792,7 @@ func (s *session) genValid(label string, kind string) *hmsg {
 				h := s.k + uint64(c.Int(label+".ahead", 1, int(s.tip-s.k)))
 				list = append(list, s.momentumAt(h))
 				s.noteValid(m, h)
+				s.noteBlocks(m, h)
 				ds = append(ds, fmt.Sprintf("valid A[%d]", h))
 			case 2: // a momentum the node already has
 				h := c.Uint64(label+".old", 1, s.k)
@@ -814,6 +826,10 @@ func (s *session) genValid(label string, kind string) *hmsg {
 					ds = append(ds, "fabricated momentum")
 				} else {
 					ds = append(ds, fmt.Sprintf("A[%d] with fault %s", h, fk))
+					s.noteBlocks(m, h)
+					if fk == "extra-account-block" || fk == "resigned-account-block" {
+						m.tx = true // carries a valid block that is in no momentum of A
+					}
 				}
 				list = append(list, d)
 			default:
@@ -843,7 +859,7 @@ func (s *session) genValid(label string, kind string) *hmsg {
 				txs = append(txs, b.Copy())
 			}
 			d = fmt.Sprintf("the %d account blocks of A[%d]", len(txs), s.k+1)
-			m.tx = true
+			s.noteBlocks(m, s.k+1)
 		case 1: // blocks the node already has in its chain
 			for _, b := range s.someBlocks(label + ".old") {
 				txs = append(txs, b.Copy())
@@ -1013,7 +1029,7 @@ func (s *session) genMessage(label string) *hmsg {
 		p, d := mutateRLP(c, label+".mut", base.payload)
 		m := &hmsg{code: base.code, payload: p, size: uint32(len(p)), shape: "mutant"}
 		m.reaches = mirrorDecodes(m.code, p)
-		m.tx = base.tx
+		m.tx, m.blocksOf = base.tx, base.blocksOf
 		m.descr = fmt.Sprintf("%s mutated (%s): %s", base.descr, d, clip(p, 24))
 		if m.reaches {
 			c.Class("msg-rlp-mutant-decodable")
@@ -1079,8 +1095,10 @@ func (s *session) genMessage(label string) *hmsg {
 				}
 			}
 			n := uint64(exactCapHashes - c.Int(label+".less", 0, 3))
-			if code == codeGetBlocks && known == nil {
-				n /= 8 // unknown hashes cost one failed lookup each
+			if (code == codeGetBlocks && known == nil) || code == codeNewBlockHashes {
+				// every hash costs the node one or two store views (~0.1 ms each); a full 10 MiB list
+				// keeps the handler busy for more than the liveness deadline (see the report)
+				n = uint64(pbt.Scale(6000, 30000))
 			}
 			hsr := newHashStream(n, s.seed, known)
 			m.stream, m.size = hsr, uint32(hsr.total())
@@ -1089,6 +1107,7 @@ func (s *session) genMessage(label string) *hmsg {
 		case "declared-smaller":
 			base := s.genValid(label, validKinds[c.Pick(label+".base", len(validKinds)-1)])
 			m.code, m.payload = base.code, base.payload
+			m.tx, m.blocksOf, m.valid = base.tx, base.blocksOf, base.valid
 			cut := c.Int(label+".cut", 1, 40)
 			if cut > len(m.payload) {
 				cut = len(m.payload)
@@ -1098,6 +1117,7 @@ func (s *session) genMessage(label string) *hmsg {
 		default:
 			base := s.genValid(label, validKinds[c.Pick(label+".base", len(validKinds)-1)])
 			m.code, m.payload = base.code, base.payload
+			m.tx, m.blocksOf, m.valid = base.tx, base.blocksOf, base.valid
 			m.size = uint32(len(m.payload) + c.Int(label+".more", 1, 5000))
 			m.descr = fmt.Sprintf("%s declaring %d bytes, %d present", base.descr, m.size, len(m.payload))
 		}
@@ -1417,7 +1437,7 @@ func sessionProp(c *pbt.C) {
 	tcase := time.Now()
 	defer func() { c.R.Count("ms_case", int(time.Since(tcase).Milliseconds())) }()
 	sh := world()
-	s := &session{c: c, sh: sh, validSet: map[uint64]bool{}}
+	s := &session{c: c, sh: sh, validSet: map[uint64]bool{}, poolOK: map[types.Hash]bool{}}
 	s.seed = c.Uint64("seed", 0, 1<<32)
 	s.onA = c.Weighted("target", 60, 40) == 1
 	if s.onA {
@@ -1468,6 +1488,13 @@ func sessionProp(c *pbt.C) {
 		if s.policy == "honest" || s.policy == "mutated" || s.policy == "too-many" {
 			for h := s.k + 1; h <= s.tip; h++ { // the responder may hand over A[k+1..tip]
 				s.validSet[h] = true
+			}
+		}
+		if s.policy != "silent" && s.policy != "garbage" && s.policy != "empty" && s.policy != "raw" {
+			for h := s.k + 1; h <= s.tip; h++ {
+				for _, b := range sh.early[h].AccountBlocks {
+					s.poolOK[b.Hash] = true
+				}
 			}
 		}
 	} else {
@@ -1548,8 +1575,20 @@ func sessionProp(c *pbt.C) {
 	switch {
 	case fNow == frontier0:
 		if !s.txValid {
-			if p := poolHashes(s.node); p != pool0 {
-				c.Failf("C15/state-changed", "uncommitted blocks changed without a valid block having been delivered: %q -> %q", pool0, p)
+			was := map[string]bool{}
+			for _, h := range strings.Split(pool0, ",") {
+				was[h] = true
+			}
+			for _, b := range s.node.Chain.GetAllUncommittedAccountBlocks() {
+				if !was[b.Hash.String()] && !s.poolOK[b.Hash] {
+					c.Failf("C15/state-changed", "the node holds uncommitted block %v (type %d, %v height %d) that is no valid block delivered by the peer",
+						b.Hash, b.BlockType, b.Address, b.Height)
+				}
+			}
+			if len(s.poolOK) == 0 {
+				if p := poolHashes(s.node); p != pool0 {
+					c.Failf("C15/state-changed", "uncommitted blocks changed without a valid block having been delivered: %q -> %q", pool0, p)
+				}
 			}
 		}
 		if !s.onA {
@@ -1707,6 +1746,11 @@ func (s *session) sendHostile(m *hmsg) bool {
 	}
 	if m.tx {
 		s.txValid = true
+	}
+	for _, h := range m.blocksOf {
+		for _, b := range s.sh.early[h].AccountBlocks {
+			s.poolOK[b.Hash] = true
+		}
 	}
 	c.Checkpoint()
 	o := ep.deliver(m.code, m.size, cr, m.descr)
